@@ -13,4 +13,27 @@ def run(ctx):
     drive(ctx, qprog.programs(max_steps=ctx.params.get("max_steps", 8)), exec_program, n)
 
 
-SUBCHECKS = {"program": {"run": run, "execute": exec_program}}
+def run_alias(ctx):
+    """complete enumeration of the 3-step aliasing programs  source -> X -> copy_  for every operation X: after an in-place
+    copy into the source or into X's result, whatever the float program leaves untouched must be untouched"""
+    from vlib.core import enumerate_cases
+
+    sources = [
+        {"op": "src_qa", "a": 0, "b": 0, "c": 0, "shape": [2, 3], "seed": 5},      # per-tensor qint8 fp32
+        {"op": "src_qa", "a": 1, "b": 1, "c": 0, "shape": [3, 2, 2], "seed": 6},   # per-tensor float8 fp16
+        {"op": "src_qw", "a": 0, "b": 0, "c": 0, "shape": [3, 4], "seed": 7},      # per-axis (0) qint8
+        {"op": "src_qw", "a": 2, "b": 4, "c": 0, "shape": [2, 3], "seed": 8},      # per-axis (-1) float8 bf16
+    ]
+    cases = []
+    for src in sources:
+        for opname in sorted(set(qprog.ALLOPS)):
+            for a in (0, 1, 2):
+                for dest in (0, 100):
+                    for b in (1, 2):
+                        cases.append({"steps": [src, {"op": opname, "s": [0, 1, 2], "a": a, "b": a + 1, "c": a},
+                                                {"op": "copy_", "s": [dest, 0, 0], "a": 1, "b": b, "c": a}]})
+    enumerate_cases(ctx, cases[ctx.shard :: ctx.nshards], exec_program,
+                    exhaustive_name="aliasing programs source -> X -> copy_ for every operation X of the op tables x 4 source kinds x 3 argument variants x {copy into the source, copy into X's result} x 2 source dtypes")
+
+
+SUBCHECKS = {"program": {"run": run, "execute": exec_program}, "alias": {"run": run_alias, "execute": exec_program}}
